@@ -3,7 +3,7 @@ import datetime
 import math
 from . import error
 from ..helper.number import to_number, whole_text
-from .utils import OPERATOR_DICT, serialize_date, parse_date, date_1900
+from .utils import OPERATOR_DICT, serialize_date, parse_date, date_1900, as_lists, plain_number
 from .._compat import integer_types, number_types, string_types
 
 
@@ -394,6 +394,7 @@ def text_of(value):
 
 
 def evaluate_arithmetic(op, lval, rval):
+    lval, rval = as_lists(lval), as_lists(rval)  # rows handed in as tuples
     if isinstance(lval, error.XLError):
         return lval
     if isinstance(rval, error.XLError):
@@ -446,6 +447,7 @@ def evaluate_arithmetic(op, lval, rval):
 
 
 def evaluate_logic(op, lval, rval):
+    lval, rval = as_lists(lval), as_lists(rval)
     for _ in range(2):
         # a one-cell range ([[v]]) or one-item array is its item, as under the arithmetic operators
         if isinstance(lval, list) and len(lval) == 1:
